@@ -31,6 +31,7 @@ ASSUMPTIONS = [
 ]
 SHARDS = {"quick": 8, "thorough": 16}
 MIN_REACH = {
+    "histories_under_xarrays_new_combine_defaults": {"quick": 20, "thorough": 300},
     "states_judged": {"quick": 500, "thorough": 9000},
     "conflicts_refused": {"quick": 25, "thorough": 500},
     "new_sessions": {"quick": 80, "thorough": 1500},
@@ -197,6 +198,20 @@ def _val_eq(x, y):
 
 
 def run_case(ctx, case):
+    """A quarter of the histories run in a session whose caller opted into xarray's announced new defaults for combining
+    datasets (xr.set_options(use_new_combine_kwarg_defaults=True), what xarray's own FutureWarning recommends): the
+    harvester's promises do not depend on that ambient setting."""
+    import json
+    import zlib
+    import xarray as xr
+    if zlib.crc32(json.dumps(case, sort_keys=True, default=str).encode()) % 4 == 0 and "use_new_combine_kwarg_defaults" in xr.core.options.OPTIONS:
+        ctx.count("histories_under_xarrays_new_combine_defaults")
+        with xr.set_options(use_new_combine_kwarg_defaults=True):
+            return _run_case(ctx, case)
+    return _run_case(ctx, case)
+
+
+def _run_case(ctx, case):
     import xyzpy
     import xarray as xr
     kind = case["kind"]
